@@ -355,4 +355,101 @@ theorem valAccs_sound (ρ : VName → Option Val) (env : ValEnv) (hag : Agree ρ
     exact valAccs_sound ρ env hag r _ h
 end
 
+open Circomspect Ir
+
+theorem get_filter (prime : Int) (vals : List (VName × Val)) (nc : List VName) (v w : VName) (x : Val)
+    (h : (ValEnv.mk prime (vals.filter (fun e => e.1 != v)) nc).get w = some x) :
+    (ValEnv.mk prime vals nc').get w = some x := by
+  unfold ValEnv.get at h ⊢
+  simp only at h ⊢
+  induction vals with
+  | nil => simp at h
+  | cons e t ih =>
+    simp only [List.filter_cons] at h
+    by_cases hev : e.1 = v
+    · have : (e.1 != v) = false := by simp [hev]
+      rw [this] at h
+      simp only [Bool.false_eq_true, if_false] at h
+      have ih' := ih h
+      simp only [List.find?_cons]
+      by_cases hew : e.1 = w
+      · -- then w = v, but the filtered list has no entry for v
+        exfalso
+        have hwv : w = v := hew ▸ hev
+        subst hwv
+        clear ih ih'
+        induction t with
+        | nil => simp at h
+        | cons e2 t2 ih2 =>
+          simp only [List.filter_cons] at h
+          by_cases h2 : e2.1 = w
+          · have : (e2.1 != w) = false := by simp [h2]
+            rw [this] at h
+            simp only [Bool.false_eq_true, if_false] at h
+            exact ih2 h
+          · have : (e2.1 != w) = true := by simp [h2]
+            rw [this] at h
+            simp only [if_true, List.find?_cons] at h
+            have : (e2.1 == w) = false := by simp [h2]
+            rw [this] at h
+            exact ih2 h
+      · have : (e.1 == w) = false := by simp [hew]
+        rw [this]
+        exact ih'
+    · have : (e.1 != v) = true := by simp [hev]
+      rw [this] at h
+      simp only [if_true, List.find?_cons] at h ⊢
+      cases hew : (e.1 == w) with
+      | true => rw [hew] at h; exact h
+      | false => rw [hew] at h; exact ih h
+
+/-- `add_variable` keeps the environment in agreement with every concrete environment in which the
+    assigned variable has the assigned value (whenever it has a value) -/
+theorem agree_add (ρ : VName → Option Val) (env : ValEnv) (v : VName) (x : Val)
+    (hag : Agree ρ env) (hv : ∀ y, ρ v = some y → y = x) : Agree ρ (env.add v x) := by
+  unfold ValEnv.add
+  split
+  · exact hag
+  · split
+    · rename_i old hold
+      split
+      · exact hag
+      · intro w xw hw y hy
+        exact hag w xw (get_filter env.prime env.vals _ v w xw hw) y hy
+    · intro w xw hw y hy
+      unfold ValEnv.get at hw
+      simp only [List.find?_cons] at hw
+      cases hvw : (v == w) with
+      | true =>
+        rw [hvw] at hw
+        simp only [Option.map_some] at hw
+        have : v = w := by simpa using hvw
+        subst this
+        cases hw
+        exact hv y hy
+      | false =>
+        rw [hvw] at hw
+        exact hag w xw hw y hy
+
+/-- one substitution: if the concrete environment satisfies the assignment, the claims written by the
+    statement are right and the updated abstract environment still agrees -/
+theorem valStmt_sub_sound (ρ : VName → Option Val) (env : ValEnv) (hag : Agree ρ env)
+    (a : Ann) (v : VName) (ty : Option VType) (op : String) (rhe : Expr)
+    (hs : SoundE ρ env.prime rhe) (hsat : ρ v = evalE ρ env.prime rhe) :
+    Agree ρ (valStmt env (.sub a v ty op rhe)).2.1 := by
+  have ie := valExpr_sound ρ env hag rhe hs
+  have ee := evalE_valExpr ρ env.prime env rhe
+  unfold valStmt
+  simp only
+  split
+  · split
+    · rename_i x hx
+      simp only
+      apply agree_add ρ env v x hag
+      intro y hy
+      rw [hsat, ← ee] at hy
+      exact sound_top ρ env.prime _ ie x hx y hy
+    · exact hag
+  · exact hag
+
 end Circomspect.Propagate
